@@ -1013,8 +1013,58 @@ func (a *A) assembledPayload() {
 		if f == nil {
 			continue
 		}
+		if name == "parseData" {
+			f = a.defaultProcess(f)
+		}
 		a.assembledIn(rule, f, name == "parseData")
 	}
+}
+
+// defaultProcess: the function that assembles and dispatches the unit — parseData itself, or, when parseData keeps only the
+// custom-parser stage, the package function it tail-calls with its own packet group as first argument and that takes the
+// concatenation buffer from the pool.
+func (a *A) defaultProcess(pd *ssa.Function) *ssa.Function {
+	usesPool := func(f *ssa.Function) bool {
+		get := a.P.Func("bytesPooler.get")
+		for _, c := range ssau.Calls(f) {
+			if get != nil && c.Common().StaticCallee() == get {
+				return true
+			}
+		}
+		return false
+	}
+	if usesPool(pd) || len(pd.Params) == 0 {
+		return pd
+	}
+	for _, ret := range ssau.Returns(pd) {
+		if len(ret.Results) == 0 {
+			continue
+		}
+		var call *ssa.Call
+		switch x := ret.Results[0].(type) {
+		case *ssa.Extract:
+			call, _ = x.Tuple.(*ssa.Call)
+		case *ssa.Call:
+			call = x
+		}
+		if call == nil {
+			continue
+		}
+		g := call.Call.StaticCallee()
+		if g == nil || g.Pkg != a.P.SSAPkg || len(g.Blocks) == 0 || len(call.Call.Args) == 0 || call.Call.Args[0] != ssa.Value(pd.Params[0]) || !usesPool(g) {
+			continue
+		}
+		tail := true
+		for i, rv := range ret.Results {
+			if ex, ok := rv.(*ssa.Extract); !ok || ex.Tuple != ssa.Value(call) || ex.Index != i {
+				tail = false
+			}
+		}
+		if tail {
+			return g
+		}
+	}
+	return pd
 }
 
 func (a *A) assembledIn(rule string, f *ssa.Function, dispatch bool) {
